@@ -17,7 +17,7 @@ EXPLANATION = (
     'exporter -> bus -> caller (four encode/decode hops) and must run the method once with equal arguments and complete with '
     'the equal value, or with a RemoteError mirroring the raised exception. sched: one or two concurrent calls under every '
     'delivery schedule up to the bound (which link delivers next, whole or cut after 1 / 16 bytes), selector-driven.')
-BOUNDS = {'quick': 'values: 2 clients, 1 call, 7 method shapes x 2 proxy kinds; sched: 2-3 clients, 1-2 concurrent calls, first 4 scheduling decisions free (6 options each)',
+BOUNDS = {'quick': 'values: 2 clients, 1 call, 9 method shapes (incl. one member name on two interfaces) x 2 proxy kinds; sched: 2-3 clients, 1-2 concurrent calls, first 4 scheduling decisions free (6 options each)',
           'thorough': 'sched: first 5 scheduling decisions free'}
 ASSUMPTIONS = ['"any number of clients / every interleaving" is cut to 2-3 clients and the first 4-5 scheduling decisions (later ones: first pending link, whole)',
                'authentication is skipped on both sides (C06/C07)', 'argument values beyond int32 / byte / one character are covered per hop by C01-C03']
@@ -26,7 +26,7 @@ STUBS = ['in-memory pipes between FakeTransports', 'task.Clock as reactor']
 
 def obligations(tier):
     obs = []
-    for kind in ('swap', 'mixed', 'raise', 'void', 'list1', 'struct1', 'list2'):
+    for kind in ('swap', 'mixed', 'raise', 'void', 'list1', 'struct1', 'list2', 'overload', 'overload-kw'):
         for intro in (False, True):
             obs.append(Ob('values:%s:%s' % (kind, 'introspected' if intro else 'explicit'), 'values',
                           {'kind': kind, 'intro': intro}, timeout=900, path_timeout=120, twin=True, functions=FUNCS,
@@ -121,8 +121,19 @@ def _mk_exported():
                       Method('Void', '', ''), Method('Tag', 's', 's'), Method('One', 'i', 'ai'),
                       Method('Wrap', 'i', '(i)'), Method('Two', 'ii', 'ai'))
 
+    I2 = DBusInterface('org.t.Calc2', Method('Tag', 's', 's'), Method('Only2', 'i', 'i'))
+
     class E(objects.DBusObject):
-        dbusInterfaces = [I]
+        dbusInterfaces = [I, I2]
+
+        @objects.dbusMethod('org.t.Calc2', 'Tag')
+        def tag_two(self, s):
+            self.log.append(('Tag2', s))
+            return 'two:' + s
+
+        def dbus_Only2(self, a):
+            self.log.append(('Only2', a))
+            return a
 
         def __init__(self, path):
             objects.DBusObject.__init__(self, path)
@@ -155,10 +166,11 @@ def _mk_exported():
             self.log.append(('Two', a, b))
             return [a, b]
 
+        @objects.dbusMethod('org.t.Calc', 'Tag')
         def dbus_Tag(self, s):
             self.log.append(('Tag', s))
             return 'tag:' + s
-    _cls.update(E=E, I=I)
+    _cls.update(E=E, I=I, I2=I2)
     return E, I
 
 
@@ -168,7 +180,7 @@ def build(family, p):
     from txdbus.interface import DBusInterface
     E, I = _mk_exported()
 
-    def world(nclients, intro):
+    def world(nclients, intro, ifaces=None):
         fresh_clock()
         message.DBusMessage._nextSerial = 1
         net = Net(busmod, client, message)
@@ -191,7 +203,7 @@ def build(family, p):
                     DBusInterface.knownInterfaces.clear()
                     DBusInterface.knownInterfaces.update(saved)
             else:
-                c.getRemoteObject(exp.busName, '/calc', I).addCallbacks(res.append, res.append)
+                c.getRemoteObject(exp.busName, '/calc', ifaces if ifaces is not None else I).addCallbacks(res.append, res.append)
                 net.pump()
             check(len(res) == 1 and isinstance(res[0], objects.RemoteDBusObject), 'no proxy for the exported object')
             proxies.append(res[0])
@@ -201,7 +213,9 @@ def build(family, p):
     if family == 'values':
         kind, intro = p['kind'], p['intro']
 
-        if kind in ('swap', 'raise'):
+        if kind in ('overload', 'overload-kw'):
+            params = [('a', int), ('b', str)]
+        elif kind in ('swap', 'raise'):
             params = [('a', int), ('b', int)]
         elif kind == 'mixed':
             params = [('a', int), ('b', str)]
@@ -209,17 +223,27 @@ def build(family, p):
             params = [('a', int), ('b', int)]
 
         def h(a, b):
-            if kind == 'mixed':
+            if kind in ('mixed', 'overload', 'overload-kw'):
                 assume(0 <= a <= 255)
                 assume(len(b) == 1 and ord(b[0]) != 0 and not (0xD800 <= ord(b[0]) <= 0xDFFF))
             else:
                 assume(-2 ** 31 <= a < 2 ** 31 and -2 ** 31 <= b < 2 ** 31)
             with notrace():
-                net, cl, obj, proxies = world(2, intro)
+                if kind == 'overload':
+                    # the proxy knows the second interface only (explicit), or both in the exporter's order (introspected)
+                    net, cl, obj, proxies = world(2, intro, [_cls['I2']])
+                elif kind == 'overload-kw':
+                    net, cl, obj, proxies = world(2, intro, [_cls['I'], _cls['I2']])
+                else:
+                    net, cl, obj, proxies = world(2, intro)
                 message.DBusMessage._nextSerial = 5000
             px = proxies[0]
             out = []
-            if kind == 'swap':
+            if kind == 'overload':
+                d = px.callRemote('Tag', b)
+            elif kind == 'overload-kw':
+                d = px.callRemote('Tag', b, interface='org.t.Calc2')
+            elif kind == 'swap':
                 d = px.callRemote('Swap', a, b)
             elif kind == 'mixed':
                 d = px.callRemote('Mixed', a, b)
@@ -237,7 +261,12 @@ def build(family, p):
             net.pump()
             check(len(out) == 1, 'the call did not complete exactly once')
             check(len(obj.log) == 1, 'the remote method did not run exactly once')
-            if kind == 'swap':
+            if kind in ('overload', 'overload-kw'):
+                second = (kind == 'overload-kw') or (not intro)
+                check(obj.log[0] == (('Tag2', b) if second else ('Tag', b)),
+                      'the method of another interface ran (the proxy chose one interface, the exporter another)')
+                check(out[0] == ('ok', ('two:' if second else 'tag:') + b), 'caller did not receive what the chosen method returned')
+            elif kind == 'swap':
                 check(obj.log[0] == ('Swap', a, b), 'method ran with different arguments')
                 check(out[0][0] == 'ok' and out[0][1] == [b, a], 'caller did not receive what the method returned')
             elif kind == 'mixed':
@@ -262,7 +291,7 @@ def build(family, p):
                 check(out[0] == ('ok', None), 'void method must complete with None')
             reached()
         h.__name__ = 'values'
-        if kind == 'mixed':
+        if kind in ('mixed', 'overload', 'overload-kw'):
             wit = [(0, 'a'), (255, '€'), (7, '\U0001f600')]
         else:
             wit = [(0, 0), (-2 ** 31, 2 ** 31 - 1), (0x0d0a, 0x0a0d0a0d)]
